@@ -44,6 +44,60 @@ theorem render_flags_lex_equal (f f' : Flags) (indent indent' : Nat) (evs : List
     lexRust out = lexRust out' := by
   rw [render_lex_spec f indent evs out hok h, render_lex_spec f' indent' evs out' hok h']
 
+/-! ### multi-line buffers
+
+A `line s` event is ONE `rust!` call; `s` may contain newlines (user action code is written by a single
+call, and may contain string / raw string / byte string literals and block comments that span several
+source lines).  What the theorems above assume about such a buffer is only `Closed s`: lexing
+`s ++ "\n"` from between tokens ends between tokens — literals and block comments may span lines
+INSIDE the buffer, they just may not be left open at its end.  That this is enough rests on the fact
+proved next: `write_fmt` writes the indentation once, in front of the whole buffer, and then the
+buffer verbatim, so no newline inside the buffer is ever followed by inserted blanks. -/
+
+/-- **`multi_line_buffer_verbatim`**: for a non-empty buffer, `write_fmt` outputs exactly
+    `indentation ++ s ++ "\n"` — one indentation (a run of blanks, empty when `emit_whitespace` is off) in
+    front, then the buffer unchanged, whatever newlines it contains. -/
+theorem multi_line_buffer_verbatim (f : Flags) (indent : Nat) (s out : List Char) (indent' : Nat)
+    (hs : s ≠ []) (h : writeFmt f indent s = some (out, indent')) :
+    ∃ k, out = List.replicate k ' ' ++ s ++ ['\n'] ∧ (f.whitespace = false → k = 0) := by
+  cases s with
+  | nil => exact absurd rfl hs
+  | cons c cs =>
+    simp only [writeFmt] at h
+    split at h
+    · simp at h
+    · rename_i indent1 _
+      simp at h
+      obtain ⟨rfl, _⟩ := h
+      by_cases hw : f.whitespace = true
+      · exact ⟨indent1, by simp [indentation, hw], by simp [hw]⟩
+      · exact ⟨0, by simp [indentation, hw], fun _ => rfl⟩
+
+/-- consequently the two white-space settings differ on a buffer only by that leading run of blanks:
+    the text from the first character of the buffer on is identical, in particular inside every
+    literal that spans lines -/
+theorem multi_line_buffer_flag_independent (c : Bool) (indent : Nat) (s o₁ o₂ : List Char) (i₁ i₂ : Nat)
+    (hs : s ≠ []) (h₁ : writeFmt ⟨c, true⟩ indent s = some (o₁, i₁)) (h₂ : writeFmt ⟨c, false⟩ indent s = some (o₂, i₂)) :
+    ∃ k, o₁ = List.replicate k ' ' ++ o₂ := by
+  obtain ⟨k, hk, _⟩ := multi_line_buffer_verbatim _ indent s o₁ i₁ hs h₁
+  obtain ⟨k', hk', hz⟩ := multi_line_buffer_verbatim _ indent s o₂ i₂ hs h₂
+  have : k' = 0 := hz rfl
+  subst this
+  exact ⟨k, by rw [hk, hk']; simp⟩
+
+/-- a buffer whose string literal spans three lines is `Closed`, and both white-space settings lex to
+    the same single string token with the original line breaks -/
+example :
+    Closed ['"', 'a', '\n', ' ', ' ', 'b', '\n', 'c', '"', ';'] ∧
+    (render ⟨false, true⟩ 4 [.line ['"', 'a', '\n', ' ', ' ', 'b', '\n', 'c', '"', ';']]).map lexRust =
+      some [.str ['a', '\n', ' ', ' ', 'b', '\n', 'c'], .punct ';'] ∧
+    (render ⟨false, false⟩ 4 [.line ['"', 'a', '\n', ' ', ' ', 'b', '\n', 'c', '"', ';']]).map lexRust =
+      some [.str ['a', '\n', ' ', ' ', 'b', '\n', 'c'], .punct ';'] := by
+  refine ⟨?_, ?_, ?_⟩
+  · show runMode .normal _ = .normal; decide
+  · decide
+  · decide
+
 /-- the hypotheses are satisfiable and the statement has content: a function with a guarded comment
     and a table row, rendered with comments on / white space off and with the defaults -/
 example :
